@@ -80,13 +80,37 @@ func (m *Machine) store(p Value, v Value) {
 		if p == nil {
 			m.rtPanic("invalid memory address or nil pointer dereference")
 		}
-		m.set(p, copyVal(v))
+		m.storeInPlace(p, v)
 	case SymRef:
 		i := int(m.Concretize(p.Idx))
-		m.set(&p.Cells[i], copyVal(v))
+		m.storeInPlace(&p.Cells[i], v)
 	default:
 		panic(fmt.Sprintf("store: unexpected pointer %T", p))
 	}
+}
+
+// storeInPlace writes v into the cell p. Aggregates are written element by element into the
+// existing cells, so that addresses of fields / elements taken BEFORE the store (go/ssa computes
+// the field addresses of `*z = T{a: x}` first, stores the zero T, then stores through them) keep
+// denoting the live object.
+func (m *Machine) storeInPlace(p *Value, v Value) {
+	switch nv := v.(type) {
+	case Struct:
+		if old, ok := (*p).(Struct); ok && len(old) == len(nv) {
+			for i := range nv {
+				m.storeInPlace(&old[i], nv[i])
+			}
+			return
+		}
+	case Array:
+		if old, ok := (*p).(Array); ok && len(old) == len(nv) {
+			for i := range nv {
+				m.storeInPlace(&old[i], nv[i])
+			}
+			return
+		}
+	}
+	m.set(p, copyVal(v))
 }
 
 // boundsCheck decides 0 <= idx < n (idx signed 64-bit) or panics like Go.
